@@ -1,4 +1,4 @@
 From Coq Require Import Extraction ExtrOcamlBasic.
-From Verif Require Import Vrf.Model.
+From Verif Require Import Vrf.Model Vrf.Index.
 Extraction Language OCaml.
-Extraction "model.ml" init step should_hold vrf_view to_global can_import.
+Extraction "model.ml" init step should_hold vrf_view to_global can_import iinit istep paths_by_rt.
